@@ -379,6 +379,10 @@ def _get_insertion_index(routing_table, generality):
     def gg(entry):
         return _get_generality(entry.key, entry.mask)
 
+    # An empty table has only one insertion point
+    if not routing_table:
+        return 0
+
     # Perform a binary search through the routing table
     bottom = 0
     top = len(routing_table)
